@@ -8,6 +8,8 @@
 (*       eval IS get_proof_term(x).th);  chk = the same for theory.check_proof(pt.export());                 *)
 (*       idem = the same for cv.get_proof_term(rhs)   (normalisers only)]                                   *)
 (*   kind "orbit": [tid, kind, cv, ty, mode, ms |-> sequence of [x, rhs]]  the results on one orbit          *)
+(*   norm and orbit events carry thy = [add_assoc, mult_comm, binary |-> BOOLEAN]: facts of the theory object  *)
+(*   in which the call was made (histories: one theory object extended item by item)                         *)
 (* Clauses (names of the property's demands that FAIL on the event):                                        *)
 (*   OwnError       get_proof_term raised something else than the conversion's own ConvException             *)
 (*   IsEquation, LhsIsInput, HypsFromConds     the parts of ConvOK(x, conds, pt.th)                          *)
@@ -29,6 +31,10 @@ CanonCvs(mode, ty) == CASE mode = "arith" /\ ty = "nat" -> {"nat_norm_full"}
                         [] mode = "conj" -> {"prop_norm_full", "sort_conj", "conj_norm"}
                         [] mode = "disj" -> {"prop_norm_full", "sort_disj", "disj_norm"}
                         [] OTHER -> {}
+\* the theory in which the call was made has what the FULL mode of the normaliser is documented to need (data/nat.py norm_full: AC of
+\* + and *, and the binary-arithmetic theorems to add and multiply numerals); in a partial theory (a theory object that is still
+\* being extended) only the contract, the checker replay and value preservation are demanded
+TheoryFull(e) == e.thy.add_assoc /\ e.thy.mult_comm /\ e.thy.binary
 Abstract(mode, ty, t) == IF mode = "arith" THEN FromHolA(t, TyOf(ty)) ELSE FromHolP(t)
 Class(mode, ty, t) == CASE mode = "arith" -> PolyOf(FromHolA(t, TyOf(ty)))
                         [] mode = "conj" -> MemberSet(FromHolP(t), "and")
@@ -57,12 +63,12 @@ ConvClauses(e) ==
           \cup (IF e.chk.o = "ok" /\ SameSeq(e.chk.th, e.pt.th) THEN {} ELSE {"Checked"})
           \cup (IF e.ev.o = "none" \/ (e.ev.o = "ok" /\ SameSeq(e.ev.th, e.pt.th)) THEN {} ELSE {"EvalSame"})
           \cup (IF ValueVerdict(e) = 2 THEN {"ValuePreserved"} ELSE {})
-          \cup (IF e.kind = "norm" /\ e.cv \in CanonCvs(e.mode, e.ty) /\ IsEquation(e.pt.th) /\ e.idem.o # "conv" /\ ~IdemSame(e) THEN {"Idempotent"} ELSE {})
+          \cup (IF e.kind = "norm" /\ e.cv \in CanonCvs(e.mode, e.ty) /\ TheoryFull(e) /\ IsEquation(e.pt.th) /\ e.idem.o # "conv" /\ ~IdemSame(e) THEN {"Idempotent"} ELSE {})
         ELSE {})
 ConvDiverges(e) ==
   \/ (e.pt.o = "conv" /\ e.ev.o = "ok")
   \/ (e.pt.o = "ok" /\ ValueVerdict(e) = 0)
-  \/ (e.pt.o = "ok" /\ e.kind = "norm" /\ IsEquation(e.pt.th) /\ ~IdemSame(e) /\ (e.cv \notin CanonCvs(e.mode, e.ty) \/ e.idem.o = "conv"))
+  \/ (e.pt.o = "ok" /\ e.kind = "norm" /\ IsEquation(e.pt.th) /\ ~IdemSame(e) /\ (e.cv \notin CanonCvs(e.mode, e.ty) \/ ~TheoryFull(e) \/ e.idem.o = "conv"))
   \/ (e.pt.o = "ok" /\ e.cv = "nnf" /\ IsEquation(e.pt.th) /\ ~IsNNF(FromHolP(RhsOf(e.pt.th))))
 ConvNontrivial(e) == e.pt.o = "ok" /\ IsEquation(e.pt.th) /\ (e.kind = "comb" \/ ValueVerdict(e) >= 0)
 
@@ -75,10 +81,10 @@ Uncanonical(e) ==
 OrbitCompared(e) ==
   LET n == Len(e.ms) cl == [i \in 1..n |-> Class(e.mode, e.ty, e.ms[i].x)] IN \E i \in 1..n : \E j \in (i + 1)..n : cl[i] = cl[j]
 ClausesOf(e) == IF e.kind = "orbit"
-                THEN (IF e.cv \in CanonCvs(e.mode, e.ty) /\ OrbitOK(e) /\ Uncanonical(e) THEN {"Canonical"} ELSE {})
+                THEN (IF e.cv \in CanonCvs(e.mode, e.ty) /\ TheoryFull(e) /\ OrbitOK(e) /\ Uncanonical(e) THEN {"Canonical"} ELSE {})
                 ELSE ConvClauses(e)
 NontrivialOf(e) == IF e.kind = "orbit" THEN OrbitOK(e) /\ OrbitCompared(e) ELSE ConvNontrivial(e)
-DivergesOf(e) == IF e.kind = "orbit" THEN e.cv \notin CanonCvs(e.mode, e.ty) /\ OrbitOK(e) /\ Uncanonical(e) ELSE ConvDiverges(e)
+DivergesOf(e) == IF e.kind = "orbit" THEN (e.cv \notin CanonCvs(e.mode, e.ty) \/ ~TheoryFull(e)) /\ OrbitOK(e) /\ Uncanonical(e) ELSE ConvDiverges(e)
 TNext == LET e == Trace[l] IN TStep(e.tid, ClausesOf(e), NontrivialOf(e), DivergesOf(e))
 TSpec == TInit /\ [][TNext]_l
 =============================================================================
